@@ -442,6 +442,14 @@ func Check(cfg Config, sources []Source) *Result {
 								fn := mc.Fn.(*ssa.Function)
 								for i, bd := range mc.Bindings {
 									if bd == ssa.Value(al) && i < len(fn.FreeVars) && inEngine(fn) {
+										// a variable that is assigned once, before the literal is made, and made where the
+										// assigned value is known not to be nil (`te, err := admit(); if err != nil { return }; go
+										// func() { use(te) }()`): what the literal reads is that value
+										if nstores == 1 && assignedOnce(al) && dominatesInstr(u, mc) {
+											if e2 := nonNilAt(v, mc.Block(), flow.FactsAt(mc.Block()), cfg.PairRule); e2 != "" {
+												continue
+											}
+										}
 										for _, r3 := range ssau.Referrers(fn.FreeVars[i]) {
 											if ld, ok := r3.(*ssa.UnOp); ok && ld.Op == token.MUL {
 												push(ld, it.src, it.chain, "via captured variable "+al.Comment)
@@ -588,6 +596,77 @@ func Check(cfg Config, sources []Source) *Result {
 		return a.Instr.Pos() < b.Instr.Pos()
 	})
 	return res
+}
+
+// assignedOnce: the local variable cell al is used for nothing but loads and stores in place in its function and
+// loads in the function literals that capture it (literals in literals too): no literal assigns it and its address
+// goes nowhere else.
+func assignedOnce(al *ssa.Alloc) bool {
+	var readOnly func(fv ssa.Value, depth int) bool
+	readOnly = func(fv ssa.Value, depth int) bool {
+		if depth > 4 {
+			return false
+		}
+		for _, r := range ssau.Referrers(fv) {
+			switch y := r.(type) {
+			case *ssa.DebugRef:
+			case *ssa.UnOp:
+				if y.Op != token.MUL {
+					return false
+				}
+			case *ssa.MakeClosure:
+				fn, ok := y.Fn.(*ssa.Function)
+				if !ok {
+					return false
+				}
+				for i, bd := range y.Bindings {
+					if bd == fv && (i >= len(fn.FreeVars) || !readOnly(fn.FreeVars[i], depth+1)) {
+						return false
+					}
+				}
+			default:
+				return false
+			}
+		}
+		return true
+	}
+	for _, r := range ssau.Referrers(al) {
+		switch y := r.(type) {
+		case *ssa.DebugRef:
+		case *ssa.UnOp:
+			if y.Op != token.MUL {
+				return false
+			}
+		case *ssa.Store:
+			if y.Addr != ssa.Value(al) || y.Val == ssa.Value(al) {
+				return false
+			}
+		case *ssa.MakeClosure:
+			fn, ok := y.Fn.(*ssa.Function)
+			if !ok {
+				return false
+			}
+			for i, bd := range y.Bindings {
+				if bd == ssa.Value(al) && (i >= len(fn.FreeVars) || !readOnly(fn.FreeVars[i], 0)) {
+					return false
+				}
+			}
+		default:
+			return false
+		}
+	}
+	return true
+}
+
+// dominatesInstr: instruction a is executed before instruction b on every way to b (same function).
+func dominatesInstr(a, b ssa.Instruction) bool {
+	if a.Block() == nil || b.Block() == nil || a.Parent() != b.Parent() {
+		return false
+	}
+	if a.Block() == b.Block() {
+		return flow.Index(a) < flow.Index(b)
+	}
+	return a.Block().Dominates(b.Block())
 }
 
 // mapElems: the values that engine code reads out of the map m (lookups and range values), following m through
